@@ -22,7 +22,7 @@ NP = {'float16': 'float16', 'float32': 'float32', 'float64': 'float64', 'int8': 
 
 X_REPS = [('tensor', 'float32'), ('ndarray', 'float32'), ('ndarray', 'float64')]
 FLOAT_Y = ['float32', 'float64']
-INT_Y = ['int8', 'int16', 'int32', 'int64', 'uint8']
+INT_Y = ['int8', 'int16', 'int32', 'int64', 'uint8', 'uint16', 'uint32', 'uint64']
 
 
 def documented_y_reps(logical):
@@ -282,9 +282,6 @@ def gen_cases(run):
     outside = [
         ('reg1', {'x': ['tensor', 'float64'], 'y': ['tensor', 'float32', 'col'], 'q': ['tensor', 'float64']}),
         ('reg1', {'x': ['tensor', 'float32'], 'y': ['tensor', 'float16', 'col'], 'q': ['tensor', 'float32']}),
-        ('multi', {'x': ['tensor', 'float32'], 'y': ['ndarray', 'uint16', 'vec'], 'q': ['tensor', 'float32']}),
-        ('multi', {'x': ['ndarray', 'float32'], 'y': ['ndarray', 'uint32', 'col'], 'q': ['tensor', 'float32']}),
-        ('bin', {'x': ['tensor', 'float32'], 'y': ['ndarray', 'uint64', 'vec'], 'q': ['tensor', 'float32']}),
         ('bin', {'x': ['tensor', 'float32'], 'y': ['tensor', 'bool', 'vec'], 'q': ['tensor', 'float32']}),
         ('reg1', {'x': ['ndarray', 'float16'], 'y': ['tensor', 'float32', 'vec'], 'q': ['ndarray', 'float16']}),
     ]
@@ -308,7 +305,7 @@ def check(run):
                        'documented interface = float32 tensors, float32/float64 arrays (features); tensors or arrays, float 32/64, '
                        'int8/16/32/64/uint8 labels, shapes (n,), (n,1), (n,k) (targets)',
                        'OUTSIDE (observations only): float64/float16 feature tensors (not converted by xRFM.fit), float16 targets, '
-                       'bool labels, NumPy uint16/32/64 labels (torch storage-only dtypes: max() raises NotImplementedError)',
+                       'bool labels',
                        'each fit is seeded (random/numpy/torch) immediately before construction; CPU; torch pinned to 1 thread']
     import time
     t0 = time.time()
